@@ -170,3 +170,13 @@ Proof. vm_cast_no_check (eq_refl true). Qed.
 Theorem signal_handler_stays : forall s, Reach s -> sg s = SgDone -> struck s = true.
 Proof. intros s Hr Hs. pose proof (all_R _ handler_alive_R s Hr) as H. unfold handler_alive in H. rewrite Hs in H. exact H. Qed.
 
+(* signals are ignored only inside a release window (or for ever under WithoutSignals): whenever the loop waits at its
+   select, a signal counts - also after an Exec whose RestoreTerminal failed *)
+Definition unignored_ok (s : skel) : bool := match run s with RSelect => negb (ign s) || nosig s | _ => true end.
+Lemma unignored_R : all_states R unignored_ok = true.
+Proof. vm_cast_no_check (eq_refl true). Qed.
+Theorem signals_count_at_select : forall s, Reach s -> run s = RSelect -> nosig s = false -> ign s = false.
+Proof.
+  intros s Hr Hs Hn. pose proof (all_R _ unignored_R s Hr) as H. unfold unignored_ok in H. rewrite Hs, Hn in H.
+  destruct (ign s); [discriminate|reflexivity].
+Qed.
